@@ -90,6 +90,7 @@ theorem refuse_only_if {w : World} (h : Inv w) {k : Nat} {o : Obj} (ho : w.objs 
     simp only [SV.shorts, SV.short, svOf, shortNames, List.map_map]; rfl
   obtain ⟨s1, s2⟩ := aliasPair_spec hi ho p1 p2
   simp only [mustRefuse, hshorts, Bool.or_eq_true, Bool.not_eq_true', beq_iff_eq]
+  left
   cases h1 : find? w.heap o.params (o.pre ++ p1) with
   | none =>
     left; left; left; left
